@@ -283,9 +283,12 @@ def run_threads(ctx, r):
         rounds = 0
         while not ctx.expired():
             rounds += 1
-            corpus = [next(r.choice(gens))[1][:1500] for _ in range(20)]
-            corpus += [codecgen.c13_xor_case(r)[0][:3000] for _ in range(6)]  # module-level helpers used by several decoders in a row
-            corpus += corpus[:6]  # the same input concurrently in several threads
+            corpus = [next(r.choice(gens))[1][:1000] for _ in range(10)]
+            while len(corpus) < 14:  # module-level helpers used by several decoders in a row
+                xd, _, _, form = codecgen.c13_xor_case(r)
+                if form != "bytes":
+                    corpus.append(xd[:1500])
+            corpus += corpus[:4]  # the same input concurrently in several threads
             case = {"kind": "threads", "datas": [runner.hx(c) for c in corpus]}
             if not ctx.begin(case):
                 continue
